@@ -426,6 +426,10 @@ def gen_b64_cases(rng, tier):
         cases.append({"fam": "b64encs", "s": "".join(s)})
     # malformed / non-canonical encodings
     pool = list(B64ALPHA) + ["=", "=", "=", "-", "_", " ", "\n", "\u00e9", "\U00010000", "\x00", ".", "\\", "'"]
+    # characters outside the alphabet that collapse onto an alphabet character (or onto '=') when a code point is
+    # truncated to its low byte / low 7 bits / taken modulo a table size
+    for base in "AZaz09+/=Q":
+        pool += [chr(ord(base) + 0x100), chr(ord(base) + 0x200), chr(ord(base) + 0x10000), chr(ord(base) + 0x80)]
     for _ in range(6000 if tier == "quick" else 60000):
         b = rand_bytes(rng, rng.randrange(0, 14))
         s = list(base64.b64encode(b).decode())
